@@ -12,7 +12,7 @@ PROP = {
          'part of them reach the victim\'s real pool by gossip (guard asked first, like the network handler); the victim follows fork x, then the longer fork y, in half of '
          'the histories x again after it grew; after every accepted block the selection pool.GetTxs hands the node\'s own miner (MineBlock does not consult the replay '
          'guard) must contain no identity already on the current branch, and the block the assembler mines from it is judged like an accepted block. '
-         'distinct = (deputies, length, span) resp. (deputies, fork lengths, placements); non-trivial = history spanning more than 30 min of chain time resp. with a fork switch Replay variants also include a signature appended by a foreign key; fresh transactions expiring 1..600 s beyond the maximum lifetime are offered on their own and inside a box that expires earlier.',
+         'distinct = (deputies, length, span) resp. (deputies, fork lengths, placements); non-trivial = history spanning more than 30 min of chain time resp. with a fork switch Replay variants also include a signature appended by a foreign key; fresh transactions expiring 1..600 s beyond the maximum lifetime are offered on their own and inside a box that expires earlier. Replays are also wrapped (once, twice) into a box whose payload text announces random hashes for the sub-transactions.',
  'assumptions': ['signed identity = the signing hash the repository itself defines (all signed fields, not the signature list) + sender',
                  'attack blocks are produced by the real miner path on a helper node, which executes whatever candidates it is given'],
  'min_cases': {'quick': 50, 'thorough': 1200},
